@@ -26,6 +26,10 @@ for d in sorted(glob.glob("/verif/seeded/*/meta.json")):
     missed = [p for p, (rc, sig) in runs.items() if rc != 1]
     summ = (m.get("summary") or "").replace("\n", " ").replace("|", "/")
     needs = (m.get("needs") or "").replace("\n", " ").replace("|", "/")
+    if m.get("status") == "obsolete":
+        rows.append("| %s | %s | %s | *obsolete*: %s |" % (sid, summ[:230], needs[:200], m.get("obsolete_note", "")[:400]))
+        json.dump(m, open(d, "w"), indent=1)
+        continue
     rows.append("| %s | %s | %s | %s%s |" % (sid, summ[:230], needs[:200], "; ".join(caught) or "-", (" — **missed by** " + ",".join(missed)) if missed else ""))
     m["checks_run"] = {p: dict(exit=rc, signatures=sig) for p, (rc, sig) in runs.items()}
     m["caught_by_quick_check_of"] = [p for p, (rc, sig) in runs.items() if rc == 1]
